@@ -1186,6 +1186,12 @@ func c18decAtoms() []*c18dec {
 	add("lone-high-string", `"\ud800"`, str).docFFFD = `"` + c18ufffd + `"`
 	add("lone-high-iface", `"x\ud800y"`, ifc).docFFFD = `"x` + c18ufffd + `y"`
 	add("lone-high-field", `{"Name":"\ud800x"}`, sa).docFFFD = `{"Name":"` + c18ufffd + `x"}`
+	// the same through the double-unquote path of a field tagged `,string`
+	add("lone-high-string-tagged-field", `{"S":"\"\\ud800x\""}`, func() interface{} {
+		return new(struct {
+			S string `json:"S,string"`
+		})
+	}).docFFFD = `{"S":"\"\` + c18ufffd + `x\""}`
 	add("lone-low-key", `{"\udc00":1}`, func() interface{} { return new(map[string]int) }).docFFFD = `{"` + c18ufffd + `":1}`
 	add("high-then-nonlow", `"\ud800`+c18u("0041")+`"`, str).docFFFD = `"` + c18ufffd + c18u("0041") + `"`
 	p = add("lone-high-skipped", `{"zz":"\ud800","A":3}`, sa)
